@@ -312,6 +312,39 @@ Theorem resolve_sound : forall env e, no_corner (expand e) = true -> eval_r env 
 Proof. exact EvalProofs.resolve_sound. Qed.
 Print Assumptions resolve_sound.
 
+(* ---- folding as a rewriting system (Proofs/FoldAnywhere.v) ---- *)
+From PV Require Import Proofs.FoldAnywhere.
+
+(* static_eval_rq_operator / static_eval_case / the `in` desugaring applied at ANY position, in ANY order, any number
+   of times, after ast_expand: the result still means what the source expression means (EvalDoc).  The excluded
+   corner is a side condition of the single step (fold_step's FS_arg: under `==`, `!=`, in-range a step may not turn
+   an operand that is not the literal null into it), not a hypothesis on the expression. *)
+Theorem folding_anywhere_sound : forall env e r', fold_steps (expand e) r' -> eval_r env r' = eval_doc env e.
+Proof. exact fold_anywhere_doc. Qed.
+Print Assumptions folding_anywhere_sound.
+
+(* ... and the resolver's bottom-up pass is one such run (so static_eval_sound is an instance) *)
+Theorem resolver_pass_is_a_folding_run : forall r, no_corner r = true -> fold_steps r (seval r).
+Proof. exact seval_is_a_run. Qed.
+Print Assumptions resolver_pass_is_a_folding_run.
+
+(* the Normalizer (sql/pq/preprocess.rs) never changes the value -- full strength, no side condition -- and leaves
+   the literal null on the right of every std.eq (what process_null and the IS NULL emission rely on) *)
+Theorem normalize_sound : forall env r, eval_r env (normalize r) = eval_r env r.
+Proof. exact FoldAnywhere.normalize_sound. Qed.
+Print Assumptions normalize_sound.
+Theorem normalize_puts_null_right : forall r, null_on_the_right (normalize r) = true.
+Proof. exact FoldAnywhere.normalize_puts_null_right. Qed.
+Print Assumptions normalize_puts_null_right.
+
+(* non-vacuity: a run that is NOT bottom-up -- the outer `null ?? _` is folded while its operand `!true` is not *)
+Example ex_fold_outer_first :
+  fold_steps (ROp n_coalesce [RLit LNull; ROp n_not [RLit (LBool true)]]) (ROp n_not [RLit (LBool true)]).
+Proof. econstructor; [apply FS_root; apply (FR_op n_coalesce); vm_compute; reflexivity|constructor]. Qed.
+Example ex_normalize_swaps :
+  normalize (ROp n_eq [RLit LNull; RCol 0]) = ROp n_eq [RCol 0; RLit LNull].
+Proof. vm_compute. reflexivity. Qed.
+
 (* ================= operator by operator, executable dialects ================= *)
 Theorem div_f_real_sqlite : forall x y, is_num x -> is_num y ->
   sql_value d_sqlite (PBinE B_DivFloat a_ b_) [x; y] = eval_doc [x; y] (PBinE B_DivFloat a_ b_).
